@@ -575,7 +575,7 @@ def tie_trace_bytes(ctx, exp_res, textdir, specs, per_design):
             if r is None or 'worker_error' in r or 'trace_items' not in r:
                 continue
             order = tuple(r['trace_keys'])
-            if order in seen or len(seen) >= per_design:
+            if order in seen or len(seen) >= per_design or (ctx.tier == 'quick' and int(key[1:]) % 3 == 2):
                 continue
             seen.add(order)
             if any(ord(c) > 255 or c == '\0' for nm, _, _ in r['trace_items'] for c in nm) or not r['trace_items']:
